@@ -26,7 +26,8 @@ impl BracketAtom {
     fn matches_multi_character(&self) -> bool {
         match self {
             BracketAtom::CollatingSymbol(value) | BracketAtom::EquivalenceClass(value) => {
-                value.len() > 1
+                // (a single non-ASCII character is longer than one byte)
+                value.chars().nth(1).is_some()
             }
             _ => false,
         }
